@@ -333,7 +333,7 @@ class Gen:
             if kind == "named":
                 n, argt = r.choice(named)
                 rec = self.fns[n][2]
-                self.cost += self.fn_cost.get(n, 1)
+                self.cost += (self.fn_cost.get(n) or 1)
                 args = []
                 for i, at in enumerate(argt):
                     if rec and i == 0:
@@ -358,7 +358,7 @@ class Gen:
                 return ("%s(%s)" % (n, ", ".join(a for a, _ in args)),
                         "ECall %s %s" % (cstr(n), clist(c for _, c in args)))
             n, ty = r.choice(fnvars)
-            self.cost += max(list(self.fn_cost.values()) + [1])
+            self.cost += max([c for c in self.fn_cost.values() if c] + [1])
             args = [self.expr(at, d - 1, scope, nostr) for at in ty[1]]
             self.features["callable"] += 1
             return ("%s(%s)" % (n, ", ".join(a for a, _ in args)),
@@ -553,7 +553,8 @@ class Gen:
         except LookupError:
             if old is not None:
                 self.fns[name] = old
-                self.fn_cost[name] = old_cost
+                if old_cost is not None:
+                    self.fn_cost[name] = old_cost
             return False
         # one call: the body once per activation; literal depths are at most 4
         acts = 1 if not recursive else (31 if nrec == 2 else 5)
@@ -563,7 +564,8 @@ class Gen:
         if cost > self.FN_LIMIT:
             if old is not None:
                 self.fns[name] = old
-                self.fn_cost[name] = old_cost
+                if old_cost is not None:
+                    self.fn_cost[name] = old_cost
             return False
         self.fn_cost[name] = cost
         self.fns[name] = (ptypes, ret, recursive)
